@@ -50,11 +50,19 @@ func genCap(t *rapid.T) CapCase {
 	}
 }
 
-// serveQuiet answers ShareNodes with an empty list and closes everything else.
+// serveQuiet answers ShareNodes with an empty list and SendHeaders with "no
+// further headers" (so that a syncing peer marks us synced), and closes
+// everything else.
 func serveQuiet(id types.Specifier, s *gateway.Stream) {
 	defer s.Close()
-	if r, ok := gateway.ObjectForID(id).(*gateway.RPCShareNodes); ok {
+	switch r := gateway.ObjectForID(id).(type) {
+	case *gateway.RPCShareNodes:
 		s.WriteResponse(r)
+	case *gateway.RPCSendHeaders:
+		if s.ReadRequest(r) == nil {
+			r.Headers, r.Remaining = nil, 0
+			s.WriteResponse(r)
+		}
 	}
 }
 
